@@ -9,6 +9,7 @@ TIE = {"Load": ["h_load_build", "h_load_buildSchedule", "h_load_parseScheduleMap
                 "h_load_parseCommand", "h_load_parseExecutor", "h_load_convertMap", "h_load_parseSubWorkflow",
                 "h_load_parseMiscs", "h_load_loadVariables", "h_load_parseKeyValue", "h_load_buildEnvs",
                 "h_load_decode", "h_load_unmarshalData", "h_load_loadYAML", "h_load_loadDAG",
+                "h_load_assertNoNullElements", "h_load_parseCron", "h_load_convertValue",
                 "defStructs"]}
 
 ENTRIES = ["LoadYAML", "LoadMetadata", "LoadWithoutEval", "Load"]
@@ -250,7 +251,8 @@ def mutate(r, n):
     return kind
 
 
-# witnesses of the refuted full statement (Props/C13.lean) and of each finding class: always run first
+# regression corpus, always run first: the inputs that refuted C13 before the loader fixes (each `w-…` case is a
+# former witness; REGRESSION says what the fixed loader must answer), plus shape cases of the decode model
 STEP = M(name="s", command="true")
 CORPUS = [
     ("valid", M(name="d", schedule="* * * * *", steps=[STEP])),
@@ -282,6 +284,15 @@ CORPUS = [
     ("env-bad-key", M(env=M(("", "v")), steps=[STEP])),
     ("env-nonstring-key", M(env=("m", [(1, "v")]), steps=[STEP])),
 ]
+
+
+# former witnesses -> required answer of every entry point that builds steps ("err"), or accepted in a sound state
+REGRESSION = {n: "err" for n in [
+    "w-sched-unknown-key", "w-steps-null", "w-preconditions-null", "w-step-preconditions-null", "w-handler-preconditions-null",
+    "w-functions-null", "w-call-nil-function", "w-tz", "w-tz-in-map", "w-exec-nan", "w-command-empty-list", "w-executor-empty",
+    "w-command-leading-space", "w-call-empty-command", "w-nonstring-key-step", "w-nonstring-key-smtp", "w-sched-mixed-order"]}
+STEP_LEVEL = {"w-exec-nan", "w-command-empty-list", "w-executor-empty", "w-command-leading-space", "w-call-empty-command"}
+REGRESSION.update({"w-exec-list-of-maps": "ok-serialisable", "w-bad-regexp": "ok-evalsafe"})
 
 
 # ------------------------------------------------------------------ canonical forms
@@ -374,7 +385,8 @@ def run(chk, replay):
     chk.assumptions = ["generated definitions contain no command substitutions, so the evaluating entry point executes nothing",
                        "map keys are scalars; struct keys are ASCII (strings.EqualFold special cases U+212A, U+017F not generated)",
                        "base configuration empty (Load is driven with base = \"\")",
-                       "raw-bytes stream: back-ticks are neutralised before loading (logDir is command-substituted even without eval, F23)"]
+                       "raw-bytes stream: back-ticks are neutralised before loading (defence in depth: should the logDir guard of 37ddbbb "
+                       "regress, arbitrary text must still not reach a shell; C19 plants its own canaries)"]
     common.lean_obligations(chk, "BdModel/Props/C13.lean", TIE)
     binp, out = common.build_harness("load")
     if not binp:
@@ -451,6 +463,27 @@ def run(chk, replay):
     for cid, kind, t, raw in cases:
         for k in kind.split("+"):
             kinds_seen[k] = kinds_seen.get(k, 0) + 1
+    # ---- regression: the former witnesses are rejected with an error (or accepted in a sound state) by EVERY entry point
+    if not replay:
+        regress_bad = []
+        for name, want in sorted(REGRESSION.items()):
+            o = results.get(name)
+            if o is None or "res" not in o:
+                regress_bad.append(name + ": no answer"); continue
+            for e in ENTRIES:
+                res = o["res"][e]
+                f = res.get("facts") or {}
+                if want == "err":
+                    # listing (LoadMetadata) does not build steps: step-level shapes may be accepted there, but never panic
+                    good = res["cls"] == "err" or (e == "LoadMetadata" and name in STEP_LEVEL and res["cls"] == "ok")
+                elif want == "ok-serialisable":
+                    good = res["cls"] == "ok" and f.get("json") == "ok"
+                else:
+                    good = res["cls"] == "ok" and f.get("evalConds", "ok") == "ok"
+                if not good:
+                    regress_bad.append("%s/%s: %s" % (name, e, impl_str(res)[:80]))
+        chk.oblige("regression: the %d former witnesses are rejected with an error / accepted in a sound state" % len(REGRESSION),
+                   not regress_bad, "; ".join(regress_bad)[:1500])
     chk.disagreements_checked = chk.disagreements
     if lines and dis == 0:
         chk.oblige("correspondence:load (outcome class, panic site and DAG facts: impl = model on every tree and entry point)", True)
